@@ -5,6 +5,14 @@
 // a hook-level trace (steps, clock ticks, listener callbacks, call results) that spec/BreakerConc_Trace.tla
 // judges against property C12.
 //
+// Rule reloads racing with requests (spec/BreakerConcReload.tla): a schedule entry -1 is the loader: it calls
+// circuitbreaker.LoadRules / LoadRulesOfResource ("via") with the rule of the scenario whose threshold is replaced by
+// the next entry of "reloads" (same threshold = identical rule, the breaker object is kept; another threshold = a
+// statistic-reusable rule, a new breaker object) between two steps of the callers, i.e. while goroutines are parked
+// inside the breaker code of the list they fetched.  LoadRules has no yield point of its own, so it is one atomic
+// step run by the scheduler.  The listener records the threshold of the rule it is handed: that is how the reports of
+// the replaced and of the new breaker are told apart.
+//
 // usage: c12 <scenarios.ndjson> <trace.ndjson>
 package main
 
@@ -28,6 +36,7 @@ type listener struct {
 	clk *hx.VClock
 	b   int64
 	on  bool
+	thr int64 // threshold of the rule handed to the callback that is being recorded
 }
 
 func name(s cb.State) string {
@@ -43,12 +52,21 @@ func name(s cb.State) string {
 }
 func (l *listener) emit(from, to cb.State) {
 	if l.on {
-		l.tr.Emit(hx.M{"op": "listen", "p": l.cur(), "from": name(from), "to": name(to), "now": l.clk.NowMs() - l.b})
+		l.tr.Emit(hx.M{"op": "listen", "p": l.cur(), "from": name(from), "to": name(to), "now": l.clk.NowMs() - l.b, "thr": l.thr})
 	}
 }
-func (l *listener) OnTransformToClosed(prev cb.State, rule cb.Rule)                { l.emit(prev, cb.Closed) }
-func (l *listener) OnTransformToOpen(prev cb.State, rule cb.Rule, _ interface{})  { l.emit(prev, cb.Open) }
-func (l *listener) OnTransformToHalfOpen(prev cb.State, rule cb.Rule)              { l.emit(prev, cb.HalfOpen) }
+func (l *listener) OnTransformToClosed(prev cb.State, rule cb.Rule) {
+	l.thr = int64(rule.Threshold)
+	l.emit(prev, cb.Closed)
+}
+func (l *listener) OnTransformToOpen(prev cb.State, rule cb.Rule, _ interface{}) {
+	l.thr = int64(rule.Threshold)
+	l.emit(prev, cb.Open)
+}
+func (l *listener) OnTransformToHalfOpen(prev cb.State, rule cb.Rule) {
+	l.thr = int64(rule.Threshold)
+	l.emit(prev, cb.HalfOpen)
+}
 
 func main() {
 	if len(os.Args) < 3 {
@@ -85,12 +103,21 @@ func main() {
 		for _, x := range s["sched"].([]interface{}) {
 			sched = append(sched, int(x.(float64)))
 		}
+		var reloads []hx.M
+		if rl, ok := s["reloads"].([]interface{}); ok {
+			for _, x := range rl {
+				reloads = append(reloads, hx.M(x.(map[string]interface{})))
+			}
+		}
 		res := fmt.Sprintf("c12_%d", trn)
 		base0 := hx.BaseMs(100000)
 		lis.b = base0
 		clk.SetMs(base0 + 1*unit)
-		_, err := cb.LoadRules([]*cb.Rule{{Resource: res, Strategy: cb.ErrorCount, RetryTimeoutMs: uint32(timeout * unit),
-			MinRequestAmount: uint64(minamt), StatIntervalMs: 100000, StatSlidingWindowBucketCount: 1, Threshold: float64(thr), ProbeNum: uint64(probenum)}})
+		mkRule := func(th int64) *cb.Rule {
+			return &cb.Rule{Resource: res, Strategy: cb.ErrorCount, RetryTimeoutMs: uint32(timeout * unit),
+				MinRequestAmount: uint64(minamt), StatIntervalMs: 100000, StatSlidingWindowBucketCount: 1, Threshold: float64(th), ProbeNum: uint64(probenum)}
+		}
+		_, err := cb.LoadRules([]*cb.Rule{mkRule(thr)})
 		if err != nil {
 			hx.Fatal("load: %v", err)
 		}
@@ -108,7 +135,7 @@ func main() {
 			}
 		}
 		lis.on = true
-		tr.Emit(hx.M{"op": "new", "tr": trn, "timeout": timeout * unit, "probenum": probenum, "initopen": initopen, "nc": len(errs), "now": 1 * unit})
+		tr.Emit(hx.M{"op": "new", "tr": trn, "timeout": timeout * unit, "probenum": probenum, "initopen": initopen, "nc": len(errs), "now": 1 * unit, "thr": thr})
 
 		sc := hx.NewSched()
 		sc.Filter = func(pt string) bool { return strings.HasPrefix(pt, "cb.") || strings.HasPrefix(pt, "drv.") }
@@ -148,8 +175,28 @@ func main() {
 			sc.Step(p)
 			curProc = 0
 		}
+		nrl := 0
+		reload := func() {
+			if nrl >= len(reloads) {
+				return
+			}
+			th := hx.Int(reloads[nrl], "thr")
+			var err error
+			if hx.Str(reloads[nrl], "via") == "res" {
+				_, err = cb.LoadRulesOfResource(res, []*cb.Rule{mkRule(th)})
+			} else {
+				_, err = cb.LoadRules([]*cb.Rule{mkRule(th)})
+			}
+			if err != nil {
+				hx.Fatal("reload: %v", err)
+			}
+			nrl++
+			tr.Emit(hx.M{"op": "reload", "thr": th, "now": clk.NowMs() - base0})
+		}
 		for _, x := range sched {
-			if x == 0 {
+			if x < 0 {
+				reload()
+			} else if x == 0 {
 				clk.AdvanceMs(unit)
 				tr.Emit(hx.M{"op": "tick", "now": clk.NowMs() - base0})
 			} else if x-1 < len(procs) {
